@@ -205,6 +205,13 @@ def leg_sqlite(ns, res, spec):
             qtext = q % jid if '%s' in q else q
             input_table = rng.choice(ids) if rng.random() < 0.35 else 't'
             conn = sqlite3.connect(db, factory=sources.RecordingConnection)
+            # every other run the caller hands over a connection with an open transaction holding an uncommitted row: RBQL must neither commit it
+            # (the database file would change) nor roll it back (the caller's pending work would vanish)
+            pending = n % 2 == 1
+            rows0 = None
+            if pending:
+                conn.execute('INSERT INTO t SELECT * FROM t LIMIT 1')
+                rows0 = conn.execute('SELECT COUNT(*) FROM t').fetchone()[0]
             conn.arm()
             changes0 = conn.total_changes
             outp = os.path.join(d, 'out_%d.csv' % n)
@@ -225,10 +232,19 @@ def leg_sqlite(ns, res, spec):
                 res.violation('py:sqlite-non-whitelisted-sql', '[py/sqlite] %s (query %r, input table %r, SQL log %r)' % (b, qtext, input_table, conn.sql_log), case)
             if conn.total_changes != changes0:
                 res.violation('py:sqlite-total-changes', '[py/sqlite] total_changes %d -> %d for %r' % (changes0, conn.total_changes, qtext), case)
+            if pending:
+                res.count('sqlite_runs_with_open_transaction')
+                conn.disarm() if hasattr(conn, 'disarm') else None
+                rows1 = conn.execute('SELECT COUNT(*) FROM t').fetchone()[0]
+                if not conn.in_transaction or rows1 != rows0:
+                    res.violation('py:sqlite-callers-transaction-ended', '[py/sqlite] the caller\'s open transaction was %s by %r on table %r (error %s): in_transaction=%s, rows %s -> %s' % (
+                        'ended' if not conn.in_transaction else 'changed', qtext, input_table, err, conn.in_transaction, rows0, rows1), case)
+                conn.rollback()
             conn.close()
             after = sources.fingerprint(db)
             if after['sha256'] != before['sha256'] or after['size'] != before['size']:
                 res.violation('py:sqlite-file-modified', '[py/sqlite] database file changed by %r on table %r (error %s)' % (qtext, input_table, err), case)
+                os.unlink(db)
                 make_db(db, rng)
                 before = sources.fingerprint(db)
             if os.path.exists(outp):
@@ -526,7 +542,7 @@ def run_shard(spec, res):
 def summarize(tier, seed, m):
     return {
         'rule': 'the query generators of C01-C05 (every query shape) plus deliberately failing variants (syntax error, parsing error, runtime error, unknown join table), each executed (1) through rbql.query with probes and snapshots, (2) through the icontract-armed query_table, (3) with the CSV writer attached to list input, (4) on the JS engine with array snapshots; list tables with numbers, None and mutable list-valued cells under %d query texts (stars, UNNEST, every aggregate, list arithmetic and methods, UPDATE, joins) through query_table, the CSV writer as sink, a mutating probe sink and pandas object columns, compared with fully deep snapshots; pandas dataframes with deep copies; a file-backed sqlite database with recording connection, authorizer log, total_changes and file hash under %d hostile table identifiers (in the query text, as input table, and passed directly to SqliteRecordIterator); query_csv with file fingerprints and an audit-hook log of every open(); the CLI under strace. distinct_nontrivial = distinct executed (query, source) cases.' % (len(RICH_QUERIES), len(HOSTILE_IDS)),
-        'required': ['js_rich_csv_sink_runs_succeeding', 'js_rich_table_runs', 'rich_runs_failing', 'rich_runs_succeeding', 'rich_runs:csv-writer-quoted', 'rich_runs:query+mutating-sink', 'rich_runs:pandas', 'list_runs_failing', 'list_runs_succeeding', 'contract_evaluations', 'csv_writer_on_list_runs', 'column_name_list_checks', 'pandas_runs_succeeding', 'pandas_runs_failing', 'sqlite_runs_hostile', 'sqlite_sql_statements_observed', 'sqlite_authorizer_events', 'sqlite_direct_constructor_runs', 'csv_runs_succeeding', 'csv_runs_failing', 'csv_open_events_observed', 'strace_cli_runs', 'strace_opens_of_sources_observed', 'js_cases'],
+        'required': ['js_rich_csv_sink_runs_succeeding', 'js_rich_table_runs', 'rich_runs_failing', 'rich_runs_succeeding', 'rich_runs:csv-writer-quoted', 'rich_runs:query+mutating-sink', 'rich_runs:pandas', 'list_runs_failing', 'list_runs_succeeding', 'contract_evaluations', 'csv_writer_on_list_runs', 'column_name_list_checks', 'pandas_runs_succeeding', 'pandas_runs_failing', 'sqlite_runs_hostile', 'sqlite_runs_with_open_transaction', 'sqlite_sql_statements_observed', 'sqlite_authorizer_events', 'sqlite_direct_constructor_runs', 'csv_runs_succeeding', 'csv_runs_failing', 'csv_open_events_observed', 'strace_cli_runs', 'strace_opens_of_sources_observed', 'js_cases'],
         'assumptions': ['hostile identifiers are only required not to reach sqlite and not to change the database; the error class they produce is not demanded', 'sqlite3.connect itself opens the database file read-write; the file hash (not the open mode) decides for sqlite'],
     }
 
